@@ -1,3 +1,4 @@
+import Rdpgw.Props.C01Facts
 import Rdpgw.Model.Tunnel
 
 /-!
